@@ -9,6 +9,11 @@ package mesh
 import (
 	"context"
 	"fmt"
+	"go/ast"
+	"go/parser"
+	"go/token"
+	"os"
+	"path/filepath"
 	"strconv"
 	"strings"
 	"testing"
@@ -35,9 +40,10 @@ type node struct {
 }
 
 type world struct {
-	nodes []*node
-	sils  []string // ids of all silences created so far
-	gkeys []string // group keys logged so far
+	beforeJoin func(*node) // runs on a new node after its states are registered and before it joins
+	nodes      []*node
+	sils       []string // ids of all silences created so far
+	gkeys      []string // group keys logged so far
 }
 
 const settle = 8 * time.Second
@@ -76,10 +82,54 @@ func (w *world) newNode(bind string, except int) (*node, error) {
 	}
 	s.SetBroadcast(p.AddState("sil", s, reg).Broadcast)
 	l.SetBroadcast(p.AddState("nfl", l, reg).Broadcast)
+	n := &node{peer: p, sil: s, nfl: l}
+	if w.beforeJoin != nil {
+		w.beforeJoin(n)
+	}
 	if err := p.Join(cluster.DefaultReconnectInterval, cluster.DefaultReconnectTimeout); err != nil {
 		return nil, err
 	}
-	return &node{peer: p, sil: s, nfl: l}, nil
+	return n, nil
+}
+
+// appSetupOrder reads app/app.go of the tree under check: the gossip states ("nfl", "sil") are registered with the peer
+// BEFORE the peer joins the mesh — memberlist's join does the first full-state exchange, and the delegate drops the
+// parts of a state that is not registered yet.
+func appSetupOrder() string {
+	repo := os.Getenv("VERIF_REPO")
+	if repo == "" {
+		repo = "/repo"
+	}
+	fset := token.NewFileSet()
+	f, err := parser.ParseFile(fset, filepath.Join(repo, "app", "app.go"), nil, 0)
+	if err != nil {
+		return "unreadable"
+	}
+	var addState, join []token.Pos
+	ast.Inspect(f, func(n ast.Node) bool {
+		if c, ok := n.(*ast.CallExpr); ok {
+			if sel, ok := c.Fun.(*ast.SelectorExpr); ok {
+				switch sel.Sel.Name {
+				case "AddState":
+					addState = append(addState, c.Pos())
+				case "Join":
+					if id, ok := sel.X.(*ast.Ident); ok && id.Name == "peer" {
+						join = append(join, c.Pos())
+					}
+				}
+			}
+		}
+		return true
+	})
+	if len(addState) < 2 || len(join) != 1 {
+		return fmt.Sprintf("changed:addstate=%d,join=%d", len(addState), len(join))
+	}
+	for _, p := range addState {
+		if p > join[0] {
+			return "join-before-addstate"
+		}
+	}
+	return "ok"
 }
 
 func (n *node) hasSil(id string) bool {
@@ -148,6 +198,50 @@ func (w *world) exec(line string) string {
 		}
 		w.gkeys = append(w.gkeys, gk)
 		c := w.waitAll(func(n *node) bool { return n.hasLog(gk) })
+		return fmt.Sprintf("seen=%d/%d", c, len(w.nodes))
+	case "fact":
+		return appSetupOrder()
+	case "prejoin":
+		// a new instance that already has updates queued for gossip when it joins (they were made between start-up and
+		// the join): a big one, so that its full state is not relayed by the member it joins through, and a small one
+		// that only its own gossip queue carries to the other members
+		var small string
+		w.beforeJoin = func(n *node) {
+			now := time.Now()
+			mk := func(clen int) *pb.Silence {
+				return &pb.Silence{
+					MatcherSets: []*pb.MatcherSet{{Matchers: []*pb.Matcher{{Type: pb.Matcher_EQUAL, Name: "job", Pattern: "pre"}}}},
+					StartsAt:    timestamppb.New(now), EndsAt: timestamppb.New(now.Add(time.Hour)),
+					Comment: strings.Repeat("p", clen), CreatedBy: "verif",
+				}
+			}
+			big, sm := mk(1200), mk(10)
+			if err := n.sil.Set(context.Background(), big); err != nil {
+				panic(err)
+			}
+			if err := n.sil.Set(context.Background(), sm); err != nil {
+				panic(err)
+			}
+			small = sm.Id
+		}
+		_, err := w.addNode()
+		w.beforeJoin = nil
+		if err != nil {
+			return "error:" + hx.Hex(err.Error())
+		}
+		deadline := time.Now().Add(settle)
+		for time.Now().Before(deadline) {
+			ok := true
+			for _, m := range w.nodes {
+				ok = ok && m.peer.ClusterSize() == len(w.nodes)
+			}
+			if ok {
+				break
+			}
+			time.Sleep(20 * time.Millisecond)
+		}
+		w.sils = append(w.sils, small)
+		c := w.waitAll(func(n *node) bool { return n.hasSil(small) })
 		return fmt.Sprintf("seen=%d/%d", c, len(w.nodes))
 	case "burst":
 		// n small silences and n small log entries are created back-to-back on node i (no waiting in between: all of them
@@ -356,7 +450,13 @@ func TestEngine(t *testing.T) {
 		}
 		// several small updates of one state queued within one gossip interval
 		ops = append(ops, fmt.Sprintf("burst %d %d", r.IntN(n), 2+r.IntN(4)))
+		if id == 0 {
+			ops = append(ops, "fact app-setup")
+		}
 		ops = append(ops, "join")
+		if id%2 == 1 {
+			ops = append(ops, "prejoin")
+		}
 		ops = append(ops, fmt.Sprintf("sil %d big", r.IntN(n+1)), fmt.Sprintf("nfl %d small", r.IntN(n+1)))
 		ops = append(ops, fmt.Sprintf("burst %d %d", r.IntN(n+1), 2+r.IntN(4)))
 		if id%2 == 0 {
